@@ -984,3 +984,28 @@ Section Total.
       rewrite erase_reg_recs_generic; reflexivity.
   Qed.
 End Total.
+
+(* ---- a concrete history, by evaluation (the theorems are not vacuous) ---- *)
+Module ObsExample.
+  Definition orc0 : oracle := fun _ _ => None.
+  Definition imm0 : nat -> bool := fun _ => false.
+  Definition st1 : site := {| st_task := 0; st_path := [0] |}.
+  Definition body0 : list xstmt := [XService 1 st1 []; XCall 2 st1 [] [XService 3 st1 []]].
+  Definition cs0 : list apicall :=
+    [AAttach 7; ARegister SS 5; AStart; AAttach 8; AFinish 0; ADetach 7; AFinish 1; ADetach 8].
+
+  Definition has_obs_entry (r : callrec) : bool := existsb (fun e => negb (not_obs e)) (cr_log r).
+  Definition has_extra_entry (r : callrec) : bool := existsb (fun e => negb (keep0 e)) (cr_log r).
+
+  Example run_with_observers :
+    match run_script orc0 imm0 50 body0 sched0 cs0 with
+    | Ok tr =>
+      existsb has_obs_entry tr = true /\ existsb has_extra_entry tr = true
+      /\ List.length tr = 8 /\ List.length (erase_obs_recs cs0 tr) = 4
+      /\ existsb has_obs_entry (erase_obs_recs cs0 tr) = false
+      /\ run_script orc0 imm0 50 body0 sched0 (erase_obs_calls cs0) = Ok (erase_obs_recs cs0 tr)
+      /\ run_script orc0 imm0 50 body0 sched0 (erase_reg_calls cs0) = Ok (erase_reg_recs cs0 tr)
+    | _ => False
+    end.
+  Proof. vm_compute. repeat split; reflexivity. Qed.
+End ObsExample.
